@@ -176,11 +176,11 @@ def cas_params(topo, symtype, numeric=None):
 
 
 def cas_function(topo, symtype="SX", numeric=None, compact=0, more_out=False, flags=None, order=None,
-                 declare=None, dual_route=False):
+                 declare=None, dual_route=False, rename=None):
     """real step with the CasADi engine + to_function.  Returns (F, built, P, symbolic-params).
     `declare`: optional ordered list of parameter names to declare (default: all symbolic ones)."""
     P, symbolic = cas_params(topo, symtype, numeric)
-    built = T_.build(topo, P, order=order)
+    built = T_.build(topo, P, order=order, rename=rename)
     eng = casadi_engine(symtype)
     kw = T_.model_kwargs(topo, P)
     built.net.step(engine=eng, **(flags or NOFLAGS), **kw)
